@@ -103,7 +103,7 @@ let do_mop (w : string array) : unit =
   | None -> print_string "FUEL\n"
   | Some m' -> Printf.printf "0 %s\n" (print_mstate m')
 
-(* CHK <lagged> <G> ST <state tokens>  ->  1 | 0   (InvModel.consistent_check; sound by C13_consistent_check_sound) *)
+(* CHK <lagged> <G> ST <state tokens>  ->  <consistent_check> <excl_check>   (both proved sound) *)
 let do_chk (w : string array) : unit =
   let p = ref 1 in
   let next () = let s = w.(!p) in Stdlib.incr p; s in
@@ -124,7 +124,7 @@ let do_chk (w : string array) : unit =
       let nch = ni () in let ch = List.init nch (fun _ -> nn ()) in
       let npa = ni () in let pa = List.init npa (fun _ -> nn ()) in
       { o_class = cls; o_fs = fs; o_children = ch; o_parents = pa }) in
-  print_string (if consistent_check tabs st g then "1\n" else "0\n")
+  Printf.printf "%d %d\n" (if consistent_check tabs st g then 1 else 0) (if excl_check tabs st then 1 else 0)
 
 let () =
   try
